@@ -55,7 +55,14 @@ def run(ctx):
             by_core.setdefault(cr, k)
         if len(keys) != len(set(keys)):
             nt += 1
-    ctx.evaluations = sum(len(c) - 11 for c in cases)
+    # two secrets on one line under one pattern (implementation only; the model agrees with the code here by construction)
+    import vlib
+    two = textgen.pipe(["password foo1secret then password level 3 bar2secret\n"], flags="p")
+    o2 = textgen.outlines(vlib.run_impl([two])[0])[0]
+    toks = [t for t in o2.split() if t.startswith("netconanRemoved")]
+    if len(toks) == 2 and toks[0] == toks[1]:
+        ctx.fail("two different secrets on one line received the same replacement", {"line": two[11]}, o2, label="two-matches-one-line")
+    ctx.evaluations = sum(len(c) - 11 for c in cases) + 1
     ctx.distinct_nontrivial = nt
     ctx.search_stats = {"runs": len(cases), "lines": ctx.evaluations, "runs_with_repeated_secret": nt}
     ctx.samples = [{"lines": cases[0][11:14], "impl": textgen.outlines(i[0])[:3]}]
